@@ -59,14 +59,24 @@ def check_c11(prop, tier, seed):
                     dict(name='filepath', filepath=True),
                     dict(name='observers', observers=True),
                     dict(name='unsliced', slices=False)]
-        jobs = []
+        dirs = []
         for bi, b in enumerate(bases):
             d = os.path.join(scratch, 'b%d' % bi)
             os.makedirs(d)
-            jobs.append((b, dict(name='reference'), d))
+            dirs.append(d)
+        refs = common.pmap(equiv.boundary_digests, [(b, dict(name='reference'), d) for b, d in zip(bases, dirs)])
+        jobs = []
+        for b, d, ref in zip(bases, dirs, refs):
             for v in variants:
-                jobs.append((b, v, d))
-        outs = common.pmap(equiv.boundary_digests, jobs)
+                v2 = dict(v)
+                if not v.get('slices', True) and not ref.get('done', True):
+                    v2['n_like_cap'] = ref['final']['n_like']     # the sliced reference stopped at the boundary cap
+                jobs.append((b, v2, d))
+        vouts = common.pmap(equiv.boundary_digests, jobs)
+        outs = []
+        for bi in range(len(bases)):
+            outs.append(refs[bi])
+            outs += vouts[bi * len(variants):(bi + 1) * len(variants)]
         log, ids = [], {}
         per = len(variants) + 1
         for bi, b in enumerate(bases):
